@@ -642,6 +642,10 @@ func (s *Sim) FreeRun() {
 	}
 }
 
+// EndFreeRun closes the parallel window: from their next hook on, tasks park
+// again and the baton scheduler is back in charge.
+func (s *Sim) EndFreeRun() { s.passthrough.Store(false) }
+
 // Shutdown tears the run down: hooks go to abort mode, every parked task is
 // released, and the caller's cancel functions are invoked so that tasks inside
 // real primitives wake up. It returns the tasks that still have not exited
